@@ -219,10 +219,8 @@ class C02(SimSpec):
             by = {j["name"]: j for j in sc2["jobs"]}
             names = sorted(by)
             by[names[0]]["rc"] = rng.choice([1, 3])
-            for nm in names[2:-1]:
-                by[nm]["flag"] = True
-            for nm in (names[0], names[1], names[-1]):
-                by[nm]["flag"] = False
+            for j in sc2["jobs"]:
+                j["flag"] = set(j["blocked_by"]) == {names[0], names[1]}
             sc2["groups"] = sc2["groups"][:1]
             g = sc2["groups"][0]
             g.update(time_based=False, batch=12, try_add=True, procs_opt=rng.choice([2, 3]))
@@ -232,6 +230,9 @@ class C02(SimSpec):
                 sc2["mode"] = "local"
                 sc2["user"] = {}
             sc2["policy"]["finish_w"] = 0.1
+            if rng.random() < 0.7:
+                # the slow blocker is still running when the node queue notices the failure
+                sc2["hold_job"] = {"job": names[1], "until": names[0], "extra": rng.choice([10, 40, 150])}  # scheduling steps
             return sc2
         if i % 6 == 3:
             # dependency order must also hold among the jobs that a resubmission reruns
@@ -765,6 +766,17 @@ class C12(SimSpec):
             scen["endgame_kill"] = True
             scen["faults"] = {"node_kill": 3, "node_kill_w": 0.0}
             scen["fault_kind"] = "endgame_node_kill"
+        elif i % 8 == 6:
+            # collection race with node loss: rounds (nodes' own and the user's) collect the result files of batches that are
+            # still running jobs, with long delays between a collector's read and its delete of a node file, and one node dies
+            scen["faults"] = {"node_kill": 1, "node_kill_w": rng.choice([0.01, 0.03])}
+            scen["policy"]["park_p"] = rng.choice([0.3, 0.5])
+            scen["policy"]["time_w"] = 0.5
+            scen["user"] = {"try_submit": rng.choice([2, 4]), "show_status": 0, "p": 0.04, "late_try": 2}
+            for g in scen["groups"]:
+                g["time_based"] = False
+                g["batch"] = rng.randint(3, 6)
+            scen["fault_kind"] = "collection_race_node_kill"
         return scen
 
     def tasks(self, tier, seed):
